@@ -59,6 +59,12 @@ v("ok-alg-herm-part-split", A, 'zero if commuting_blocks[index[0]] else ("X".adj
 
 # --------------------------------------------------------------------------- series.py
 S = "series"
+v("ser-cauchy-small-product-becomes-zero", S, "        return product_by_order(\n            index,\n            first,\n            second,\n            operator=operator,\n            hermitian=hermitian,\n        )\n\n    product.eval = eval",
+  "        result = product_by_order(\n            index,\n            first,\n            second,\n            operator=operator,\n            hermitian=hermitian,\n        )\n        if isinstance(result, np.ndarray) and np.allclose(result, 0):\n            return zero\n        return result\n\n    product.eval = eval",
+  ["C18", "C01", "C09"], "seed C18-r6: an absolute 1e-8 threshold turns small products into the absent-term sentinel")
+v("ser-cauchy-result-through-local", S, "        return product_by_order(\n            index,\n            first,\n            second,\n            operator=operator,\n            hermitian=hermitian,\n        )\n\n    product.eval = eval",
+  "        result = product_by_order(\n            index,\n            first,\n            second,\n            operator=operator,\n            hermitian=hermitian,\n        )\n        return result\n\n    product.eval = eval",
+  [], "same value through a local")
 v("ser-order-box-short", S, "range(dim + 1) for dim in orders", "range(dim) for dim in orders", ["C12", "C13", "C18", "C01"])
 v("ser-order-box-long", S, "range(dim + 1) for dim in orders", "range(dim + 2) for dim in orders", ["C12", "C18"])
 v("ser-order-box-from-one", S, "range(dim + 1) for dim in orders", "range(1, dim + 1) for dim in orders", ["C12", "C18"])
@@ -97,6 +103,14 @@ v("se-trial-extent-one-short-for-slices", S, "order.stop if isinstance(order, sl
 v("ok-se-trial-extent-generous", S, "order.stop if isinstance(order, slice) else np.max(order, initial=0) + 1", "order.stop + 1 if isinstance(order, slice) else np.max(order, initial=0) + 2", [])
 # --------------------------------------------------------------------------- block_diagonalization.py
 B = "block_diagonalization"
+v("bd-unpack-blocks-hermitian-fill-default", B, "def _unpack_blocks(operator: BlockSeries, atol: float = 1e-12) -> BlockSeries:\n",
+  "def _unpack_blocks(operator: BlockSeries, atol: float = 1e-12, hermitian: bool = True) -> BlockSeries:\n", ["C05", "C14"],
+  "seed C05-r6: the new flag defaults to True and block_diagonalize's own call does not pass it",
+  extra=[(B, "    def op_eval(*index):\n        h = _convert_if_zero(operator[index[2:]], atol=atol)\n        if h is zero:\n            return zero\n        try:\n",
+          "    def op_eval(*index):\n        if index[0] > index[1] and hermitian:\n            return Dagger(op[(index[1], index[0], *index[2:])])\n        h = _convert_if_zero(operator[index[2:]], atol=atol)\n        if h is zero:\n            return zero\n        try:\n")])
+v("bd-taylor-termination-recorded-in-closure", B, "    def op_eval(*index):\n        expr = operator_derivatives[index].subs({n: 0 for n in symbols})\n",
+  "    exhausted = []\n\n    def op_eval(*index):\n        if any(all(i >= j for i, j in zip(index, end)) for end in exhausted):\n            return zero\n        expr = operator_derivatives[index].subs({n: 0 for n in symbols})\n        if _convert_if_zero(expr) is zero:\n            exhausted.append(index)\n",
+  ["C12", "C10", "C11"], "seed C12-r6: a vanishing Taylor COEFFICIENT is recorded as the end of the expansion; later requests above it return zero")
 v("bd-dense-orientation", B, "            energy_differences = eigs_A.reshape(-1, 1) - eigs_B\n", "            energy_differences = eigs_B.reshape(-1, 1) - eigs_A\n", ["C16", "C01"])
 v("bd-dense-guard-inverted", B, "np.abs(energy_differences) > atol, 1 / energy_differences, 0\n                )\n            return Y * energy_denominators", "np.abs(energy_differences) < atol, 1 / energy_differences, 0\n                )\n            return Y * energy_denominators", ["C16", "C20"])
 v("bd-sparse-guard-removed", B, "            energy_differences = eigs_A_select - eigs_B_select\n            with np.errstate(divide=\"ignore\", invalid=\"ignore\"):\n                energy_denominators = np.where(\n                    np.abs(energy_differences) > atol, 1 / energy_differences, 0\n                )\n",
@@ -192,6 +206,12 @@ v("la-adjoint-not-swapped", L, "                vecs=self._left_vecs,\n         
 v("la-conjugate-left-unconjugated", L, "left_vecs = vecs if self._hermitian else self._left_vecs.conj()", "left_vecs = vecs if self._hermitian else self._left_vecs", ["C17"])
 v("la-transpose-nonhermitian", L, "self.conjugate() if self._hermitian else self.conjugate()._adjoint()", "self.conjugate() if self._hermitian else self.conjugate()", ["C17"])
 v("la-matvec-left-right-mixed", L, "return v - self._vecs @ (self._left_vecs.conj().T @ v)", "return v - self._left_vecs @ (self._vecs.conj().T @ v)", ["C17", "C16"])
+v("la-transpose-real-nonhermitian-skips-adjoint", L, "                self.conjugate() if self._hermitian else self.conjugate()._adjoint()\n",
+  "                self.conjugate() if self._hermitian or not np.issubdtype(self.dtype, np.complexfloating) else self.conjugate()._adjoint()\n", ["C17"],
+  "for a real non-Hermitian projector conj(P) = P, and P is not its own transpose")
+v("la-transpose-benign-dtype-branch", L, "                self.conjugate() if self._hermitian else self.conjugate()._adjoint()\n",
+  "                self.conjugate() if self._hermitian else (self._adjoint() if not np.issubdtype(self.dtype, np.complexfloating) else self.conjugate()._adjoint())\n", [],
+  "for real vectors conj(P)^H = P^H: same operator")
 v("la-crosslink-wrong-slot", L, "                self._conjugate_operator._transpose_operator = self\n", "                self._conjugate_operator._adjoint_operator = self\n", ["C17"])
 v("la-greens-unprojected-result", L, "        return kernel_projector @ result\n", "        return result\n", ["C16", "C06"])
 v("la-greens-pivots-not-zeroed", L, "        vec[pivot_rows] = 0\n", "", ["C16"])
@@ -229,6 +249,9 @@ v("kpm-coefficient-sign", KP, "prefactor = -2 / np.sqrt(1 - energy**2)", "prefac
 v("kpm-zeroth-coefficient-not-halved", KP, "        coef[0] /= 2\n", "", ["C16"])
 v("kpm-recurrence-sign", KP, "2 * hamiltonian @ alpha - alpha_prev, alpha", "2 * hamiltonian @ alpha + alpha_prev, alpha", ["C16"])
 v("kpm-residual-of-other-equation", KP, "(hamiltonian @ sol - energy * sol) + vector", "(hamiltonian @ sol - energy * sol) - vector", ["C16"])
+v("kpm-rescale-in-place", KP, "        rescaled_h = (hamiltonian - b * np.eye(hamiltonian.shape[0])) / a\n",
+  "        rescaled_h = np.asarray(hamiltonian, dtype=np.result_type(hamiltonian, a))\n        rescaled_h[np.diag_indices_from(rescaled_h)] -= b\n        rescaled_h /= a\n",
+  ["C10", "C04", "C01"], "np.asarray returns its argument when the dtype already matches: the user's h_0 is rescaled in place (reported at block_diagonalize, the end of the caller chain)")
 v("kpm-rescale-centre", KP, "    b = (lmax + lmin) / 2.0", "    b = (lmax - lmin) / 2.0", ["C16"])
 v("kpm-arcsin-for-arccos", KP, "np.arccos(energy))", "np.arcsin(energy))", ["C16"])
 v("ok-kpm-prefactor-factored", KP, "prefactor = -2 / np.sqrt(1 - energy**2)", "prefactor = -2 / np.sqrt((1 - energy) * (1 + energy))", [])
@@ -236,6 +259,12 @@ v("ok-kpm-rescale-centre-rewritten", KP, "    b = (lmax + lmin) / 2.0", "    b =
 v("ok-kpm-rescale-width-rewritten", KP, "    a = np.abs(lmax - lmin) / (2.0 - eps)", "    a = np.abs(lmin - lmax) / (2 - eps)", [])
 # --------------------------------------------------------------------------- number_ordered_form.py
 N = "number_ordered_form"
+v("nof-cancel-ladder-number", N, "            for p, op in zip(powers[self._n_inf_order :], binary_ops):\n",
+  "            for p, op in zip(powers[self._n_bosons :], self.operators[self._n_bosons :]):\n", ["C16", "C07", "C01"],
+  "seed C16-r6: the number operator of a ladder mode is unbounded, it does not vanish next to the ladder operator")
+v("nof-cancel-as-filtered-comprehension", N, "            replacements = {}\n            for p, op in zip(powers[self._n_inf_order :], binary_ops):\n                if not p:\n                    continue\n                replacements[_number_operator_to_placeholder(NumberOperator(op))] = Zero\n",
+  "            replacements = {\n                _number_operator_to_placeholder(NumberOperator(op)): Zero\n                for p, op in zip(powers, self.operators)\n                if p and not isinstance(op, (BosonOp, LadderOp))\n            }\n", [],
+  "same table, selected by class instead of by position")
 v("nof-annihilators-ascending", N, "for i, power in reversed(list(enumerate(powers))):", "for i, power in enumerate(powers):", ["C08", "C07"])
 v("nof-creators-descending", N, "            for i, power in enumerate(powers):\n                if not power < 0:", "            for i, power in reversed(list(enumerate(powers))):\n                if not power < 0:", ["C08", "C07"])
 v("nof-old-coefficient-shifted", N, "                        new_numbers = new_numbers.xreplace(\n                            {n_operator: n_operator + new_power}\n                        )\n                        coeff = coeff * new_numbers\n",
@@ -257,6 +286,15 @@ v("ok-nof-reversed-tuple", N, "for i, power in reversed(list(enumerate(powers)))
 
 # --------------------------------------------------------------------------- algorithm_parsing.py
 P = "algorithm_parsing"
+v("ap-generated-return-in-finally", P, "            if eval_type == _EvalType.lower:\n                nodes[0].body.append(ast.Return(value=result))\n",
+  "            if eval_type == _EvalType.lower:\n                nodes[0].body = [ast.Try(body=nodes[0].body, handlers=[], orelse=[], finalbody=[ast.Return(value=result)])]\n",
+  ["C11"], "seed C11-r6: the lower-block return of a generated eval sits in a `finally`: an exception of the element computation is discarded")
+v("ap-generated-try-finally-noop", P, "            if eval_type == _EvalType.lower:\n                nodes[0].body.append(ast.Return(value=result))\n",
+  "            if eval_type == _EvalType.lower:\n                nodes[0].body = [ast.Try(body=nodes[0].body, handlers=[], orelse=[], finalbody=[ast.Pass()]), ast.Return(value=result)]\n",
+  [], "a try / finally that changes nothing")
+v("ap-zero-sum-accumulates-in-place", P, "    return sum((term for term in terms if term is not zero), start=zero)\n",
+  "    total = zero\n    for term in terms:\n        if term is zero:\n            continue\n        if total is zero:\n            total = term\n        elif isinstance(total, np.ndarray) and isinstance(term, np.ndarray):\n            total += term\n        else:\n            total = total + term\n    return total\n",
+  ["C10", "C09"], "the first non-zero term may be a stored series element: the running sum is accumulated INTO it (seed C09-r6)")
 v("ap-adjoint-index-not-swapped", P, 'ast.parse("(index[1], index[0], *index[2:])")', 'ast.parse("(index[0], index[1], *index[2:])")', ["C09", "C02"])
 v("ap-antihermitian-sign-lost", P, "                term = ast.UnaryOp(op=ast.USub(), operand=term)\n", "                pass\n", ["C09"])
 v("ap-subtraction-not-negated", P, "        if isinstance(node.op, ast.Sub):\n            right_args = [self._negate(arg) for arg in right_args]\n", "", ["C09"])
@@ -321,6 +359,12 @@ v("ok-ap-diagonal-adjoint-index", P, "slice=ast.Index(value=self._index(adjoint 
 
 # --------------------------------------------------------------------------- second_quantization.py
 Q = "second_quantization"
+v("sq-fill-adjacent-pairs-only", Q, "                if index[0] == index[1] and i < j:\n                    result[i, j] = -result[j, i].adjoint()",
+  "                if index[0] == index[1] and j == i + 1:\n                    result[i, j] = -result[j, i].adjoint()", ["C16", "C07", "C02", "C01"],
+  "elements two or more places above the diagonal stay zero: visible only on matrices of 3 x 3 or more")
+v("sq-fill-loop-as-combinations", Q, "        for i in range(Y.rows):\n            for j in range(Y.cols):\n                # Fill the lower triangle with minus conjugate transpose\n                if index[0] == index[1] and i < j:\n                    result[i, j] = -result[j, i].adjoint()",
+  "        for i, j in itertools.combinations(range(Y.rows), 2):\n            if index[0] == index[1]:\n                result[i, j] = -result[j, i].adjoint()", [],
+  "same positions through itertools.combinations")
 v("sq-shift-direction", Q, "_number_operator_to_placeholder(NumberOperator(op)) + delta", "_number_operator_to_placeholder(NumberOperator(op)) - delta", ["C16", "C07"])
 v("sq-denominator-one-sided", Q, "            denominator = shifted_H_jj - shifted_H_ii", "            denominator = shifted_H_ii - shifted_H_jj", ["C16", "C07"])
 v("sq-mask-shared-with-caller", B, "                key: np.array(sympy.sympify(value).applyfunc(NumberOrderedForm.from_expr))", "                key: sympy.sympify(value).applyfunc(NumberOrderedForm.from_expr)", ["C10"])
